@@ -20,6 +20,7 @@ import (
 	"math/rand"
 	"runtime"
 	"sort"
+	"strings"
 	"time"
 
 	"github.com/olric-data/olric/internal/cluster/partitions"
@@ -103,7 +104,8 @@ func (s *Service) evictKeys() {
 	part := s.primary.PartitionByID(partID)
 	part.Map().Range(func(name, tmp interface{}) bool {
 		f := tmp.(*fragment)
-		s.scanFragmentForEviction(partID, name.(string), f)
+		// Fragments are registered as "dmap.<name>", DMaps are known by their bare names.
+		s.scanFragmentForEviction(partID, strings.TrimPrefix(name.(string), "dmap."), f)
 		// this breaks the loop, we only scan one dmap instance per call
 		return false
 	})
